@@ -124,6 +124,7 @@ pub trait VK: Sized + ReadableVec<usize, <Self as VK>::T> {
     fn write(&mut self) -> R<bool>;
     fn flush(&mut self) -> R<()>;
     fn commit(&mut self, st: u64) -> R<()>;
+    fn swrite(&mut self, st: u64) -> R<()>;
     fn rollback(&mut self) -> R<()>;
     fn rollback_before(&mut self, st: u64) -> R<u64>;
     fn reset(&mut self) -> R<()>;
@@ -153,6 +154,9 @@ macro_rules! common_vk {
         }
         fn commit(&mut self, st: u64) -> R<()> {
             self.stamped_write_with_changes(Stamp::new(st))
+        }
+        fn swrite(&mut self, st: u64) -> R<()> {
+            self.stamped_write_maybe_with_changes(Stamp::new(st), false)
         }
         fn rollback(&mut self) -> R<()> {
             WritableVec::rollback(self)
@@ -235,6 +239,29 @@ macro_rules! cmp_vk {
         }
     };
 }
+/// a value type whose serialized form differs from its in-memory form (big-endian): `IS_NATIVE_LAYOUT` is false and the raw
+/// formats take their per-value serialization branches
+#[derive(Debug, Clone, Copy, PartialEq, PartialOrd)]
+pub struct Be32(pub u32);
+impl vecdb::Bytes for Be32 {
+    type Array = [u8; 4];
+    fn to_bytes(&self) -> Self::Array {
+        self.0.to_be_bytes()
+    }
+    fn from_bytes(bytes: &[u8]) -> vecdb::Result<Self> {
+        let mut a = [0u8; 4];
+        a.copy_from_slice(&bytes[..4]);
+        Ok(Self(u32::from_be_bytes(a)))
+    }
+}
+impl Elem for Be32 {
+    fn enc(x: u64, j: u64) -> Self { Be32(<u32 as Elem>::enc(x, j)) }
+    fn dec(self) -> (u64, u64) { self.0.dec() }
+    const SIZE: usize = 4;
+    fn bits(self) -> u64 { self.0 as u64 }
+    fn special(k: u64) -> Self { Be32(<u32 as Elem>::special(k)) }
+}
+raw_vk!(BytesVec, Be32);
 raw_vk!(BytesVec, u32);
 raw_vk!(BytesVec, u64);
 raw_vk!(BytesVec, u16);
@@ -483,6 +510,7 @@ fn run_one<V: VK>(steps: &[Value], cfg: &Cfg, st: &mut Stats, bidx: usize) {
                 }
                 "write" => vr.write().map(|_| ()),
                 "commit" => vr.commit(args[0]),
+                "swrite" => vr.swrite(args[0]),
                 "rollback" => vr.rollback(),
                 "rollback_before" => vr.rollback_before(args[0]).map(|_| ()),
                 "reset" => vr.reset(),
@@ -854,13 +882,14 @@ pub fn main(args: &[String]) -> i32 {
         let v: Value = serde_json::from_str(&l).expect("json");
         lines.push(v.as_array().unwrap().clone());
     }
-    let size = match ty { "u8" | "i8" => 1, "u16" | "i16" => 2, "u32" | "i32" | "f32" => 4, _ => 8 };
+    let size = match ty { "u8" | "i8" => 1, "u16" | "i16" => 2, "u32" | "i32" | "f32" | "be32" => 4, _ => 8 };
     let special = f.contains_key("special");
     let reads = f.contains_key("reads");
     if reads { rawdb::verif::access_tap_start(); }
     let cfg = Cfg { reads, special, k, block, check_pages: true, per_page_real: 16 * 1024 / size };
     let st = match (format, ty) {
         ("bytes", "u32") => run_all::<BytesVec<usize, u32>>(&lines, &cfg),
+        ("bytes", "be32") => run_all::<BytesVec<usize, Be32>>(&lines, &cfg),
         ("bytes", "u64") => run_all::<BytesVec<usize, u64>>(&lines, &cfg),
         ("bytes", "u16") => run_all::<BytesVec<usize, u16>>(&lines, &cfg),
         ("bytes", "f64") => run_all::<BytesVec<usize, f64>>(&lines, &cfg),
